@@ -576,8 +576,116 @@ def dom_unbound(dom):
   return [e for e in dom.events if e[0] == 'unbound']
 
 
+def rule_default_tolerance(repo, rep):
+  """Sibling agreement: the definiteness test and the pseudo-inverse cut the
+  spectrum at the same default level, so that a matrix accepted as strictly
+  definite is inverted on its whole spectrum (and a singular one is pseudo-
+  inverted on exactly the part the test called non-zero)."""
+  from ..model import canon
+  from ..ratfunc import Rat, eval_expr
+  R = 'R-SIBLING:default-eigenvalue-tolerance'
+  rep.rule(R, 'the default tolerance of _check_sdp_from_eigen and of '
+           '_pseudo_inverse_from_eig is the documented rank-style level '
+           'max|w| * len(w) * eps(dtype of w), the same in both')
+  want = Rat.sym('wmax') * Rat.sym('n') * Rat.sym('eps')
+  n_found = 0
+  for key in ('_util._check_sdp_from_eigen', '_util._pseudo_inverse_from_eig'):
+    h = repo.get_func(key)
+    rep.analysed(h)
+    wname = h.params()[0]
+
+    def dn(e):
+      d = repo.dotted(h.module, e)
+      return canon(d) if d else None
+
+    def is_w(e):
+      return isinstance(e, ast.Name) and e.id == wname
+
+    def is_absw(e):
+      return isinstance(e, ast.Call) and len(e.args) == 1 and is_w(e.args[0]) \
+          and not e.keywords and (
+              (isinstance(e.func, ast.Name) and e.func.id == 'abs') or
+              dn(e.func) in (canon('numpy.abs'), canon('numpy.absolute'),
+                             canon('numpy.fabs')))
+
+    def maxof(e):
+      """max(...) in function or method form -> the argument"""
+      if isinstance(e, ast.Call) and not e.keywords:
+        if isinstance(e.func, ast.Attribute) and e.func.attr == 'max' and \
+                not e.args and dn(e.func) is None:
+          return e.func.value
+        if len(e.args) == 1 and (
+                (isinstance(e.func, ast.Name) and e.func.id == 'max') or
+                dn(e.func) in (canon('numpy.max'), canon('numpy.amax'))):
+          return e.args[0]
+      return None
+
+    def atom(e):
+      m = maxof(e)
+      if m is not None:
+        # the spectrum handed to both functions is that of a matrix already
+        # tested or about to be tested for eigenvalues below -tol, so max(w)
+        # and max|w| name the same magnitude
+        if is_w(m) or is_absw(m):
+          return 'wmax'
+        if isinstance(m, ast.Attribute) and m.attr == 'shape' and \
+                is_w(m.value):
+          return 'n'
+      if isinstance(e, ast.Call) and isinstance(e.func, ast.Name) and \
+              e.func.id == 'len' and len(e.args) == 1 and is_w(e.args[0]):
+        return 'n'
+      if isinstance(e, ast.Attribute) and e.attr == 'size' and is_w(e.value):
+        return 'n'
+      if isinstance(e, ast.Subscript) and \
+              isinstance(e.value, ast.Attribute) and e.value.attr == 'shape' \
+              and is_w(e.value.value) and \
+              isinstance(e.slice, ast.Constant) and e.slice.value in (0, -1):
+        return 'n'
+      if isinstance(e, ast.Attribute) and e.attr == 'eps' and \
+              isinstance(e.value, ast.Call) and \
+              dn(e.value.func) == canon('numpy.finfo') and \
+              len(e.value.args) == 1 and \
+              ast.unparse(e.value.args[0]) in (wname + '.dtype',):
+        return 'eps'
+      return None
+
+    def ev(e):
+      a = atom(e)
+      if a is not None:
+        return Rat.sym(a)
+      if isinstance(e, ast.BinOp) and isinstance(e.op, (ast.Mult, ast.Div)):
+        l, r = ev(e.left), ev(e.right)
+        if l is None or r is None:
+          return None
+        return l * r if isinstance(e.op, ast.Mult) else (
+            None if r.is_zero() else l / r)
+      if isinstance(e, ast.Constant) and isinstance(e.value, (int, float)) \
+              and not isinstance(e.value, bool):
+        return Rat.const(Fraction(e.value).limit_denominator(10 ** 12))
+      return None
+
+    for n_ in ast.walk(h.node):
+      if isinstance(n_, ast.Assign) and \
+              ast.unparse(n_.targets[0]) == 'tol':
+        n_found += 1
+        v = ev(n_.value)
+        if v is None:
+          rep.unknown(R, key, site(h, n_), 'default tolerance %s is not a '
+                      'product of recognised factors' % ast.unparse(n_.value))
+        elif v == want:
+          rep.derived(R, key, site(h, n_),
+                      sample=dict(rule=R, function=key, form=repr(v)))
+        else:
+          rep.refuted(R, key, site(h, n_), 'default tolerance is %r, '
+                      'documented %r: the definiteness test and the '
+                      'pseudo-inverse no longer cut the spectrum at the same '
+                      'level' % (v, want))
+  rep.floor('default tolerance assignments', n_found, 2)
+
+
 def check(repo, rep, tier):
   rule_components_from_metric(repo, rep)
+  rule_default_tolerance(repo, rep)
   rule_metric_init(repo, rep)
   rule_strict_sites(repo, rep)
   rule_prior_inputs(repo, rep)
